@@ -520,7 +520,7 @@ func TestCheck(t *testing.T) {
 	}
 	horizon := vf.Pick(r, 25, 40) // 100 ms steps
 	budgets := vf.Pick(r, map[string]int{"sched": 1, "stop": 1, "midstop": 1, "ioerr": 1, "da": 1}, map[string]int{"sched": 2, "stop": 1, "midstop": 1, "ioerr": 1, "da": 1})
-	total := vf.Pick(r, 2, 3)
+	total := vf.Pick(r, 2, 2) // thorough: longer horizon and two scheduling deviations; three deviations (2.4 M+ executions in 25 min) never completed within the tier's time
 	r.Assume = []string{
 		"virtual time; scheduling granularity = environment calls (datastore, DA, executor, sequencer, P2P stores) plus gated sends into the sync loop's input channels; plain memory accesses between two gates are atomic, so DATA RACES ARE NOT DECIDED by this enumeration; as a supplement outside the enumeration the same ten loops (plus concurrent read accessors) run free (no scheduler, no lock shim) under the Go race detector for a grid of configurations x stop instants (coverage.race_supplement; sampling of interleavings) and every report that involves repository code is reported as clause data-race",
 		"the worker fan-out/join of FullNode.Run (node/full.go) is not executed here (libp2p goroutines cannot run in a bubble); it is modelled: the ten loops are started as Run starts them, the error channel has the capacity read from node/full.go, it is read once (first fatal error => cancel) and never after the cancel, and the join is 'every loop has returned'; a source whose join has another shape is a machinery error",
